@@ -38,19 +38,28 @@ theorem accessors_float (d : Dy) :
   refine ⟨rfl, by simp [mkFloat, isT, tagOf, typeOf, tNUMBER, tFLOAT, tINT], by simp [mkFloat, isT, tagOf, typeOf, tFLOAT],
     ⟨_, rfl, Dy.norm_valEq d.m d.e, Dy.norm_normal _ _⟩⟩
 
-theorem accessors_long (x : Int) (_hexact : -9007199254740992 < x ∧ x < 9007199254740992) :
+theorem accessors_long (x : Int) (hexact : -9007199254740992 < x ∧ x < 9007199254740992) :
     typeOf (mkLong x) = tNUMBER ∧ numOf (mkLong x) = some (Dy.ofInt x) := by
-  simp [mkLong, typeOf, numOf, Dy.norm_ofInt]
+  simp [mkLong, Dy.ofInt64, hexact, typeOf, numOf, Dy.norm_ofInt]
+
+/-- beyond 2^53 the model stores `(double)x` rounded to nearest-even (`Dy.ofIntD`); that rounding is validated only by K
+(Long / long / unsigned long / ULong literals up to ±2^63 / 2^64) -/
+theorem long_beyond_2_53_is_rounded (x : Int) (h : 9007199254740992 ≤ x ∨ x ≤ -9007199254740992) :
+    mkLong x = .num (Dy.ofIntD x) := by
+  have : ¬ (-9007199254740992 < x ∧ x < 9007199254740992) := by omega
+  simp [mkLong, Dy.ofInt64, this]
 
 /-- `Var(long)` / `Var(unsigned long)` and `v = (long)x` on LP64 (repaired by 6c0507b): an INT with the same value
 inside the int range, a NUMBER with the same value outside it (exact for |x| < 2^53) — never a truncated int -/
-theorem accessors_native_long (x : Int) (u : Nat) (_hexact : -9007199254740992 < x ∧ x < 9007199254740992 ∧ u < 9007199254740992) :
+theorem accessors_native_long (x : Int) (u : Nat) (hexact : -9007199254740992 < x ∧ x < 9007199254740992 ∧ u < 9007199254740992) :
     numOf (mkNativeLong x) = some (Dy.ofInt x) ∧ numOf (mkNativeULong u) = some (Dy.ofInt u) ∧
     (typeOf (mkNativeLong x) = tINT ↔ (-2147483648 ≤ x ∧ x < 2147483648)) ∧
     (typeOf (mkNativeULong u) = tINT ↔ u < 2147483648) ∧ isT (mkNativeLong x) tNUMBER = true := by
+  have hx : -9007199254740992 < x ∧ x < 9007199254740992 := ⟨hexact.1, hexact.2.1⟩
+  have hu : -9007199254740992 < (u : Int) ∧ (u : Int) < 9007199254740992 := by omega
   unfold mkNativeLong mkNativeULong
   by_cases h1 : -2147483648 ≤ x ∧ x < 2147483648 <;> by_cases h2 : u < 2147483648 <;>
-    simp [h1, h2, numOf, typeOf, isT, tagOf, tINT, tNUMBER, tFLOAT, tSTRING, tSSTRING, Dy.ofInt, Dy.norm]
+    simp [h1, h2, hx, hu, Dy.ofInt64, numOf, typeOf, isT, tagOf, tINT, tNUMBER, tFLOAT, tSTRING, tSSTRING, Dy.ofInt, Dy.norm]
 
 theorem accessors_bool (b : Bool) :
     typeOf (mkBool b) = tBOOL ∧ isT (mkBool b) tBOOL = true ∧ isT (mkBool b) tNUMBER = false ∧ Var.toBool (mkBool b) = b := by
@@ -670,6 +679,8 @@ theorem history_never_touches_freed (n : Nat) (ops : List Op) :
 
 /-- refusals of statements the property itself excludes (a container containing itself) or that are the two recorded
 known findings (growth of a shared block; a target path that moves what the source reference designates) -/
+-- NOTE (second audit): `srcMoved` also absorbs any failing read of the source reference after the target path (see
+-- `srcVal` in the model); that this never happens under the `invalidates` guard is not proved here, only observed by K.
 def Excluded (e : Err) : Prop := e = .sharedGrowth ∨ e = .cyclic ∨ e = .srcMoved
 
 /-- statements the model does not execute because the harness cannot issue them or the library has no defined answer:
